@@ -204,8 +204,21 @@ func (c *Ctx) merge(w *W) {
 
 // Par enumerates indices [0,n) of the named sub-space on all cores.  Every
 // index is visited exactly once (or only the replayed one).
-func (c *Ctx) Par(sub string, n int, f func(w *W, i int)) {
-	if c.onlySub != "" {
+func (c *Ctx) Par(sub string, n int, f func(w *W, i int)) { c.par(sub, n, f, false) }
+
+// ParAlways is Par for sub-spaces whose results feed later sub-spaces (BFS
+// levels): when another sub-space is being replayed it still runs completely,
+// with its counts and verdicts discarded, so that the later frontier is rebuilt.
+func (c *Ctx) ParAlways(sub string, n int, f func(w *W, i int)) { c.par(sub, n, f, true) }
+
+// ReplayingSub reports whether exactly this sub-space is being replayed.
+func (c *Ctx) ReplayingSub(sub string) bool { return c.onlySub == sub }
+
+func (c *Ctx) par(sub string, n int, f func(w *W, i int), always bool) {
+	discard := false
+	if c.onlySub != "" && c.onlySub != sub && always {
+		discard = true
+	} else if c.onlySub != "" {
 		if c.onlySub != sub {
 			return
 		}
@@ -237,7 +250,9 @@ func (c *Ctx) Par(sub string, n int, f func(w *W, i int)) {
 		go func() {
 			defer wg.Done()
 			w := &W{c: c, sub: sub, classes: map[string]int64{}}
-			defer c.merge(w)
+			if !discard {
+				defer c.merge(w)
+			}
 			for {
 				nmu.Lock()
 				lo := int(next)
@@ -251,7 +266,7 @@ func (c *Ctx) Par(sub string, n int, f func(w *W, i int)) {
 					hi = n
 				}
 				for i := lo; i < hi; i++ {
-					if c.shardN > 1 && i%c.shardN != c.shardI {
+					if !discard && c.shardN > 1 && i%c.shardN != c.shardI {
 						continue
 					}
 					w.idx = i
